@@ -67,9 +67,10 @@ OccCases == {[group |-> "occ", ty |-> "Integer", mino |-> mi, maxo |-> ma, count
               valid |-> n >= mi /\ n <= ma] : mi \in 0..2, ma \in {1, 2, 99}, n \in 0..3} \ {c \in
              {[group |-> "occ", ty |-> "Integer", mino |-> mi, maxo |-> ma, count |-> n, valid |-> n >= mi /\ n <= ma] :
                  mi \in 0..2, ma \in {1, 2, 99}, n \in 0..3} : c.mino > c.maxo}
-NilCases == {[group |-> "nil", ty |-> ty, nillable |-> nl, mino |-> mi, how |-> h,
+\* (a declared default value changes what is DELIVERED for a nil or absent member, never whether the request is accepted)
+NilCases == {[group |-> "nil", ty |-> ty, nillable |-> nl, mino |-> mi, how |-> h, dflt |-> df,
               valid |-> CASE h = "nil" -> nl [] h = "absent" -> mi = 0 [] h = "value" -> TRUE] :
-                ty \in {"Integer", "Unicode"}, nl \in BOOLEAN, mi \in 0..1, h \in {"nil", "absent", "value"}}
+                ty \in {"Integer", "Unicode"}, nl \in BOOLEAN, mi \in 0..1, h \in {"nil", "absent", "value"}, df \in BOOLEAN}
 
 \* -------------------------------------------------------------------- instants
 \* bound B = 2020-01-01T00:00:00Z; the probe is B + delta minutes, written with UTC offset `off`
@@ -104,6 +105,16 @@ LexCases == {[group |-> "lex", ty |-> p[1], facet |-> "none", text |-> p[2], val
 \* spells the elements a[i].v with contiguous or sparse indexes (where "10" sorts before "2")
 ObjArrCases == {[group |-> "objarr", ty |-> "Integer", n |-> n, idx |-> ix, missing |-> m, valid |-> m = 0] :
                   n \in {2, 3, 11}, ix \in {"contig", "sparse"}, m \in 0..3}
+
+\* ------------------------------------------------- values only ever WRITTEN (C06)
+\* conformant values whose canonical text is delicate: binary members under each declared
+\* encoding, decimals of large and small magnitude, doubles at the edges
+OutBytes == { <<>>, <<0>>, <<222, 173>>, <<255, 254, 253, 252>>, <<1, 2, 3, 4, 5, 6, 7>> }
+OutCases == {[group |-> "out", ty |-> "ByteArray", facet |-> e, bytes |-> b, lit |-> "", valid |-> TRUE] : e \in {"none", "base64", "hex"}, b \in OutBytes}
+            \cup {[group |-> "out", ty |-> p[1], facet |-> "none", bytes |-> <<>>, lit |-> p[2], valid |-> TRUE] : p \in {
+                 <<"Decimal", "2.8E+10">>, <<"Decimal", "1E-7">>, <<"Decimal", "0E-10">>, <<"Decimal", "-1.50">>, <<"Decimal", "123456789012345678901234567890.5">>,
+                 <<"Double", "1e+22">>, <<"Double", "1e-07">>, <<"Double", "-0.0">>, <<"Double", "inf">>, <<"Double", "nan">>,
+                 <<"Integer", "123456789012345678901234567890">>, <<"Unicode", "lt_amp">>, <<"Unicode", "sp_lead">> }}
 
 Cases == ObjArrCases \cup NumCases \cup BigCases \cup StrCases \cup EnumCases \cup OccCases \cup NilCases \cup DateCases \cup LexCases
 
